@@ -50,7 +50,7 @@ optional arguments:
 
     @staticmethod
     def build_formula(args, formula_class):
-        return CountingPrinciple(args.N, 2)
+        return CountingPrinciple(args.N, 2, formula_class=formula_class)
 
 
 class PMatchingCmdHelper(FormulaHelper):
@@ -79,7 +79,7 @@ optional arguments:
 
     @staticmethod
     def build_formula(args, formula_class):
-        return PerfectMatchingPrinciple(args.G)
+        return PerfectMatchingPrinciple(args.G, formula_class=formula_class)
 
 
 class CountingCmdHelper(FormulaHelper):
@@ -114,7 +114,8 @@ optional arguments:
         Arguments:
         - `args`: command line options
         """
-        return CountingPrinciple(args.M, args.p)
+        return CountingPrinciple(args.M, args.p,
+                                 formula_class=formula_class)
 
 
 tse_help_usage = """usage:
@@ -262,7 +263,7 @@ class TseitinCmdHelper(FormulaHelper):
                 raise ValueError(
                     'Illegal charge specification on command line')
 
-        return TseitinFormula(G, charge)
+        return TseitinFormula(G, charge, formula_class=formula_class)
 
 
 ssc_help_usage = """usage:
